@@ -218,7 +218,14 @@ fn spawn_backend(be: MockBackend, stop: Arc<AtomicBool>) {
                             holding = true;
                             continue;
                         }
-                        if c.write_all(b"HTTP/1.1 200 OK\r\nContent-Length: 2\r\n\r\nok", Duration::from_millis(500)).is_err() {
+                        // `/echo/<token>`: the body is the token, so a response can be matched to its request
+                        let body: Vec<u8> = match find(&req, b" /echo/") {
+                            Some(p) => req[p + 7..].iter().take_while(|b| **b != b' ').copied().collect(),
+                            None => b"ok".to_vec(),
+                        };
+                        let mut resp = format!("HTTP/1.1 200 OK\r\nContent-Length: {}\r\n\r\n", body.len()).into_bytes();
+                        resp.extend(body);
+                        if c.write_all(&resp, Duration::from_millis(500)).is_err() {
                             return;
                         }
                     }
@@ -229,7 +236,11 @@ fn spawn_backend(be: MockBackend, stop: Arc<AtomicBool>) {
 }
 
 fn start_bed() -> Result<Bed, String> {
-    let mut worker = Worker::start(WorkerOpts { log_level: "off".into(), ..WorkerOpts::default() }).map_err(|e| e.to_string())?;
+    start_bed_with(None)
+}
+
+fn start_bed_with(front_timeout: Option<u32>) -> Result<Bed, String> {
+    let mut worker = Worker::start(WorkerOpts { log_level: "off".into(), front_timeout, request_timeout: front_timeout, ..WorkerOpts::default() }).map_err(|e| e.to_string())?;
     let front = worker.add_https_listener().map_err(|e| e.to_string())?;
     let be = MockBackend::listen().map_err(|e| e.to_string())?;
     let addr = be.addr;
@@ -1914,6 +1925,114 @@ fn run_backend_case(bed: &Bed, case: &BackendCase, model: &[String]) -> Verdict 
     v
 }
 
+// ------------------------------------------------- slot-recycle family ----
+
+/// Waves of concurrent requests on one connection, each answered with a body
+/// that names the request (`/echo/<token>`), some streams reset in between:
+/// stream slots are recycled and the slot vector shrinks
+/// (`Context::create_stream` / `shrink_trailing_recycle`, `remove_dead_stream`).
+/// Every response must arrive on the stream that asked for it.
+fn run_recycle_case(bed: &Bed, name: &str, waves: &[(usize, usize)]) -> Verdict {
+    let mut v = Verdict { fails: vec![], known: vec![], tags: vec![], observed: String::new() };
+    let fail = |v: &mut Verdict, class: &str, detail: String| v.fails.push((class.to_string(), format!("{name}: {detail}")));
+    let mut c = match Client::connect(bed.front).and_then(|mut c| c.handshake().map(|_| c)) {
+        Ok(c) => c,
+        Err(e) => {
+            fail(&mut v, "handshake-failed", e);
+            return v;
+        }
+    };
+    let mut next = 1u32;
+    let mut served = 0usize;
+    for (w, (n_echo, n_reset)) in waves.iter().enumerate() {
+        // `n_reset` held requests that are reset right away, `n_echo` answered ones, interleaved, one write
+        let mut bytes = vec![];
+        let mut want: Vec<(u32, String)> = vec![];
+        for i in 0..(*n_echo).max(*n_reset) {
+            if i < *n_reset {
+                bytes.extend(frame(1, 0x5, next, &request_block(false, "/hold/recycle")));
+                bytes.extend(frame(3, 0, next, &8u32.to_be_bytes()));
+                next += 2;
+            }
+            if i < *n_echo {
+                let token = format!("w{w}s{next}");
+                bytes.extend(frame(1, 0x5, next, &request_block(false, &format!("/echo/{token}"))));
+                want.push((next, token));
+                next += 2;
+            }
+        }
+        c.send(&bytes);
+        let ids: Vec<u32> = want.iter().map(|(s, _)| *s).collect();
+        let end = c.read_until(Duration::from_millis(2500), |fs| ids.iter().all(|s| stream_ended(fs, *s)) || fs.iter().any(|f| f.ty == 7));
+        if end != End::Matched || c.goaway().is_some() {
+            fail(&mut v, "concurrent-requests-not-all-served", format!("wave {w}: {end:?}, goaway {:?}, rst {:?}", c.goaway(), c.rst_codes()));
+            return v;
+        }
+        for (sid, token) in &want {
+            let body: Vec<u8> = c.frames.iter().filter(|f| f.ty == 0 && f.sid == *sid).flat_map(|f| f.payload.clone()).collect();
+            if body != token.as_bytes() || !c.got_200(*sid) {
+                fail(&mut v, "response-delivered-to-wrong-stream", format!("wave {w}: stream {sid} asked for `{token}`, got `{}`", String::from_utf8_lossy(&body)));
+            } else {
+                served += 1;
+            }
+        }
+    }
+    v.observed = format!("{served} responses matched over {} waves", waves.len());
+    v.tags.push("recycle:responses-matched".into());
+    v
+}
+
+// ----------------------------------------------------- timeout family ----
+
+/// The backstop against wedged connections: with `front_timeout = request_timeout = 1 s`
+/// (the latter governs a connection that has not completed a request yet) a
+/// connection that goes silent - idle after the settings exchange, in the middle
+/// of a frame header, in the middle of a declared payload, with a request the
+/// backend never answers - must be released by sozu (closed, with or without
+/// GOAWAY / an error response) within a few seconds, and the worker goes on.
+/// Runs on a worker of its own, in a thread, next to the other families.
+fn timeout_family() -> Vec<(String, String)> {
+    let mut fails = vec![];
+    let mut bed = match start_bed_with(Some(1)) {
+        Ok(b) => b,
+        Err(_) => return fails, // set-up, not a verdict
+    };
+    let scenarios: Vec<(&str, Vec<u8>)> = vec![
+        ("idle_after_settings", vec![]),
+        ("partial_frame_header", vec![0, 0, 8, 6, 0]),
+        ("partial_payload", { let mut f = frame(0x42, 0, 0, &[7; 100]); f.truncate(9 + 10); f }),
+        ("partial_data_payload_on_open_stream", { let mut b = frame(1, 0x4, 1, &request_block(true, "/hold/timeout")); let mut d = frame(0, 0, 1, &[7; 100]); d.truncate(9 + 10); b.extend(d); b }),
+        ("open_header_block", frame(1, 0x1, 1, &request_block(false, "/")[..2])),
+    ];
+    let mut clients = vec![];
+    for (name, bytes) in &scenarios {
+        match Client::connect(bed.front).and_then(|mut c| c.handshake().map(|_| c)) {
+            Ok(mut c) => {
+                c.send(bytes);
+                clients.push((name.to_string(), c));
+            }
+            Err(_) => {} // set-up
+        }
+    }
+    let t0 = Instant::now();
+    for (name, c) in clients.iter_mut() {
+        // all scenarios wait in parallel: the deadline is shared
+        let total = std::env::var("H2CONN_TIMEOUT_WAIT").ok().and_then(|x| x.parse().ok()).unwrap_or(6u64);
+        let left = Duration::from_secs(total).saturating_sub(t0.elapsed()).max(Duration::from_millis(200));
+        let end = c.read_until(left, |_| false);
+        if end != End::Closed {
+            fails.push(("silent-connection-not-released-by-front-timeout".to_string(), format!("timeout:{name}: still open {:.1} s after going silent (front_timeout 1 s); goaway {:?}", t0.elapsed().as_secs_f64(), c.goaway())));
+        }
+    }
+    if !bed.worker.alive().is_alive() {
+        fails.push(("worker-died-or-wedged".to_string(), "after the timeout family".to_string()));
+    }
+    bed.stop_backend.store(true, Ordering::Relaxed);
+    drop(clients);
+    bed.worker.stop();
+    fails
+}
+
 // -------------------------------------------------------------------- main ----
 
 struct Verdict {
@@ -2135,6 +2254,12 @@ fn main() {
             std::process::exit(1);
         }
     };
+    // the timeout family waits for seconds: on its own worker, next to everything else
+    let want_timeout = match &args.replay {
+        None => true,
+        Some(p) => read_replay_ops(p).iter().any(|o| o.starts_with("h2conn timeout")),
+    };
+    let timeout_thread = if want_timeout { Some(std::thread::spawn(timeout_family)) } else { None };
     // the concurrent well-behaved connection
     let mut good = Client::connect(bed.front).ok().and_then(|mut c| c.handshake().ok().map(|_| c));
     let mut good_sid = 1u32;
@@ -2247,6 +2372,34 @@ fn main() {
             } else {
                 good_sid += 2;
             }
+        }
+    }
+    // ---- slot-recycle family: waves of concurrent requests, responses matched to their streams
+    {
+        let mut plans: Vec<(String, Vec<(usize, usize)>)> = vec![
+            ("recycle:grow_then_one".into(), vec![(8, 0), (1, 0), (5, 0), (1, 0), (1, 0)]),
+            ("recycle:resets_between".into(), vec![(6, 6), (1, 0), (3, 5), (2, 0), (10, 0), (1, 3)]),
+        ];
+        let extra = if thorough { 40 } else { 4 };
+        for i in 0..extra {
+            let mut rng = Rng::for_case(args.seed ^ 0x7ec7_c1e0, i);
+            let waves = (0..rng.range(3, 7)).map(|_| (rng.range(1, 12) as usize, rng.below(8) as usize)).collect();
+            plans.push((format!("recycle:random:{i}"), waves));
+        }
+        for (name, waves) in plans.iter().filter(|(n, _)| !replaying || replay_names.iter().any(|x| x == n)) {
+            let v = run_recycle_case(&bed, name, waves);
+            evaluations += 1;
+            nontrivial += 1;
+            for t in &v.tags {
+                *dist.entry(t.clone()).or_insert(0) += 1;
+            }
+            *dist.entry("kind:recycle".into()).or_insert(0) += 1;
+            for (class, detail) in &v.fails {
+                push_fail(&mut failures, class, detail, vec![format!("h2conn {name}")]);
+            }
+        }
+        if !bed.worker.alive().is_alive() {
+            push_fail(&mut failures, "worker-died-or-wedged", "after the slot-recycle family", vec![]);
         }
     }
     // ---- backend-peer family: sozu as the HTTP/2 client of a misbehaving backend
@@ -2451,6 +2604,18 @@ fn main() {
             }
         }
     }
+    if let Some(h) = timeout_thread {
+        match h.join() {
+            Ok(fs) => {
+                evaluations += 5;
+                *dist.entry("kind:timeout".into()).or_insert(0) += 5;
+                for (class, detail) in fs {
+                    push_fail(&mut failures, &class, &detail, vec!["h2conn timeout".to_string()]);
+                }
+            }
+            Err(_) => push_fail(&mut failures, "harness-thread-panicked", "timeout family", vec![]),
+        }
+    }
     bed.stop_backend.store(true, Ordering::Relaxed);
     drop(good);
     let rep = bed.worker.stop();
@@ -2470,7 +2635,7 @@ fn finish(args: &Args, evaluations: u64, nontrivial: u64, failures: &[Value], kn
         "seed": args.seed,
         "evaluations": evaluations,
         "distinct_nontrivial": nontrivial,
-        "rule": "black box: one real worker (HTTPS listener, H1 backend), one TLS+h2 client connection per case: a complete random/corner frame after the settings exchange followed by a PING (verdict: the Lean decoder's: err c => GOAWAY(c), exact on stream 0 and for oversize, any of PROTOCOL/STREAM_CLOSED/FRAME_SIZE or a stream error when stream state is consulted first; ok => answered, never silence), PING/SETTINGS/WINDOW_UPDATE/CONTINUATION floods with the trip point predicted by the Lean flood model (acknowledged-frame count compared), empty-DATA and rapid-reset floods, zero increment, window overflow, stray CONTINUATION, 120 unanswered requests vs the advertised 100-stream limit, first-SETTINGS payloads vs the model's first_settings; flood-variant family: every flood kind in its wire-level variants (empty DATA unpadded / PADDED pad 0 / pad 5 / pad 255 / mixed, on an open and on a closed stream; PING plain / odd flags / ACK / mixed; SETTINGS empty / known entries / unknown ids / ACK / mixed; WINDOW_UPDATE stream 0 with small increments, reserved bit, flags; CONTINUATION with empty fragments after an empty or 2-byte HEADERS fragment; WINDOW_UPDATE / RST_STREAM / DATA floods on a closed stream (glitch counter); PRIORITY / PRIORITY_UPDATE / unknown-type floods, which no counter looks at) - the trip point is computed by the Lean model (decoded frame -> frameEvents -> detector) and the connection is driven once to one frame below it (must be served) and once exactly to it (must get GOAWAY(ENHANCE_YOUR_CALM) and be closed); backend-peer family (sozu as HTTP/2 client of a cluster with http2=true, scripted prior-knowledge backend): after sozu's request HEADERS the backend sends a malformed frame (oversize, SETTINGS/PING/WINDOW_UPDATE/RST_STREAM/GOAWAY of a wrong length, PUSH_PROMISE, DATA on stream 0: GOAWAY code of the Lean decoder), frames on an idle stream, zero increment, window overflow, stray CONTINUATION (RFC), PING and SETTINGS floods (trip point of the Lean flood model), a correct 200, a graceful GOAWAY refusing the request; the front request must be answered (never hang), the front connection and another cluster keep being served; request-level family: header-field count at 127/128/129/204 fields and decoded header-list size through HPACK indexed references (15/17/20 x 4033 bytes) vs the Lean headerBudget; content-length 5/0/absent against DATA bodies (exact, padded, too much in the first/second frame, too little at END_STREAM, empty END_STREAM, trailers) vs the Lean contentLengthRun; PRIORITY with self-dependency on a known / look-ahead idle / far idle / closed stream and in a HEADERS frame vs priorityVerdict; PRIORITY_UPDATE for stream 0; DATA / PING / HEADERS / CONTINUATION on another stream / WINDOW_UPDATE / unknown type inside an open header block (RFC 9113 6.2: PROTOCOL_ERROR); HPACK garbage (COMPRESSION_ERROR); after a stream error a new request on the same connection must be served; receive-limits family: after peer SETTINGS (its MAX_FRAME_SIZE 16384 / 65536 / 2^24-1, INITIAL_WINDOW_SIZE 1 / 2^31-1, MAX_CONCURRENT_STREAMS 1 / 1000, HEADER_TABLE_SIZE, MAX_HEADER_LIST_SIZE, ENABLE_PUSH, all together with an unknown id; invalid values judged by the Lean handleSettings) frames at and above the limits sozu advertises - unknown-type and DATA frames of 16384 / 16385 / 70000 bytes sent in full, 3 full DATA frames inside the advertised window, 3 requests on the limit-2 listener, a plain request - must get the verdict of the Lean decoder (cdecode with the local bound) / history model, then a PING ACK or the GOAWAY; history family: frame sequences (new requests that the backend never answers, DATA with/without END_STREAM, WINDOW_UPDATE, RST_STREAM, PRIORITY, HEADERS on used/refused ids) on one connection of the limit-2 listener, a PING after every frame, the answer to each frame compared with the Lean history model connStep; stream-state family on a listener with h2_max_concurrent_streams=2: DATA/HEADERS/WINDOW_UPDATE/RST_STREAM/PRIORITY/CONTINUATION on a stream id that is idle (above every used id), implicitly closed (below), closed by END_STREAM (equal to / below the last id), closed by the peer's RST_STREAM, refused by the stream limit, refused while draining after SoftStop's GOAWAY (own worker), half-closed (remote), open - sent after the scene is established and in one batch with it, random odd ids in thorough; judged by an RFC 9113 5.1 table written here and compared exactly with the Lean table `headerVerdict`; afterwards a slot is freed and a new stream on the same connection must be answered 200; after a GOAWAY the connection must be closed; worker.alive(), a long-lived good connection and a fresh probe connection must keep being served",
+        "rule": "black box: one real worker (HTTPS listener, H1 backend), one TLS+h2 client connection per case: a complete random/corner frame after the settings exchange followed by a PING (verdict: the Lean decoder's: err c => GOAWAY(c), exact on stream 0 and for oversize, any of PROTOCOL/STREAM_CLOSED/FRAME_SIZE or a stream error when stream state is consulted first; ok => answered, never silence), PING/SETTINGS/WINDOW_UPDATE/CONTINUATION floods with the trip point predicted by the Lean flood model (acknowledged-frame count compared), empty-DATA and rapid-reset floods, zero increment, window overflow, stray CONTINUATION, 120 unanswered requests vs the advertised 100-stream limit, first-SETTINGS payloads vs the model's first_settings; flood-variant family: every flood kind in its wire-level variants (empty DATA unpadded / PADDED pad 0 / pad 5 / pad 255 / mixed, on an open and on a closed stream; PING plain / odd flags / ACK / mixed; SETTINGS empty / known entries / unknown ids / ACK / mixed; WINDOW_UPDATE stream 0 with small increments, reserved bit, flags; CONTINUATION with empty fragments after an empty or 2-byte HEADERS fragment; WINDOW_UPDATE / RST_STREAM / DATA floods on a closed stream (glitch counter); PRIORITY / PRIORITY_UPDATE / unknown-type floods, which no counter looks at) - the trip point is computed by the Lean model (decoded frame -> frameEvents -> detector) and the connection is driven once to one frame below it (must be served) and once exactly to it (must get GOAWAY(ENHANCE_YOUR_CALM) and be closed); timeout family (own worker, front_timeout 1 s, in parallel): a connection that goes silent when idle, inside a frame header, inside a declared payload, inside a DATA payload of an open stream, inside a header block must be closed by sozu within 6 s; slot-recycle family: waves of up to 12 concurrent requests on one connection whose responses name the request (/echo/<token>), with held requests reset in between, so that stream slots are recycled and the slot vector shrinks; every response must arrive on the stream that asked for it; backend-peer family (sozu as HTTP/2 client of a cluster with http2=true, scripted prior-knowledge backend): after sozu's request HEADERS the backend sends a malformed frame (oversize, SETTINGS/PING/WINDOW_UPDATE/RST_STREAM/GOAWAY of a wrong length, PUSH_PROMISE, DATA on stream 0: GOAWAY code of the Lean decoder), frames on an idle stream, zero increment, window overflow, stray CONTINUATION (RFC), PING and SETTINGS floods (trip point of the Lean flood model), a correct 200, a graceful GOAWAY refusing the request; the front request must be answered (never hang), the front connection and another cluster keep being served; request-level family: header-field count at 127/128/129/204 fields and decoded header-list size through HPACK indexed references (15/17/20 x 4033 bytes) vs the Lean headerBudget; content-length 5/0/absent against DATA bodies (exact, padded, too much in the first/second frame, too little at END_STREAM, empty END_STREAM, trailers) vs the Lean contentLengthRun; PRIORITY with self-dependency on a known / look-ahead idle / far idle / closed stream and in a HEADERS frame vs priorityVerdict; PRIORITY_UPDATE for stream 0; DATA / PING / HEADERS / CONTINUATION on another stream / WINDOW_UPDATE / unknown type inside an open header block (RFC 9113 6.2: PROTOCOL_ERROR); HPACK garbage (COMPRESSION_ERROR); after a stream error a new request on the same connection must be served; receive-limits family: after peer SETTINGS (its MAX_FRAME_SIZE 16384 / 65536 / 2^24-1, INITIAL_WINDOW_SIZE 1 / 2^31-1, MAX_CONCURRENT_STREAMS 1 / 1000, HEADER_TABLE_SIZE, MAX_HEADER_LIST_SIZE, ENABLE_PUSH, all together with an unknown id; invalid values judged by the Lean handleSettings) frames at and above the limits sozu advertises - unknown-type and DATA frames of 16384 / 16385 / 70000 bytes sent in full, 3 full DATA frames inside the advertised window, 3 requests on the limit-2 listener, a plain request - must get the verdict of the Lean decoder (cdecode with the local bound) / history model, then a PING ACK or the GOAWAY; history family: frame sequences (new requests that the backend never answers, DATA with/without END_STREAM, WINDOW_UPDATE, RST_STREAM, PRIORITY, HEADERS on used/refused ids) on one connection of the limit-2 listener, a PING after every frame, the answer to each frame compared with the Lean history model connStep; stream-state family on a listener with h2_max_concurrent_streams=2: DATA/HEADERS/WINDOW_UPDATE/RST_STREAM/PRIORITY/CONTINUATION on a stream id that is idle (above every used id), implicitly closed (below), closed by END_STREAM (equal to / below the last id), closed by the peer's RST_STREAM, refused by the stream limit, refused while draining after SoftStop's GOAWAY (own worker), half-closed (remote), open - sent after the scene is established and in one batch with it, random odd ids in thorough; judged by an RFC 9113 5.1 table written here and compared exactly with the Lean table `headerVerdict`; afterwards a slot is freed and a new stream on the same connection must be answered 200; after a GOAWAY the connection must be closed; worker.alive(), a long-lived good connection and a fresh probe connection must keep being served",
         "samples": samples,
         "traces_validated_against_impl": evaluations - failures.len() as u64,
         "disagreements_checked": evaluations,
